@@ -138,7 +138,8 @@ def run_case(case):
     elif case["noise_src"] == "both_prior":
         pri["sigma"] = Uniform(0.01 + j(), 0.5 + j()); kw["noise_sd"] = pri["sigma"]
     elif case["noise_src"] == "channel_model":
-        kw["noise_sd"] = {"green": 0.12, "red": 0.05}       # per-channel noise given to the MODEL (keys in another order than the data's channels)
+        # per-channel noise given to the MODEL; the dictionary is written in either key order (sorted or not, same or other order than the data's channels)
+        kw["noise_sd"] = {"green": 0.12, "red": 0.05} if rng.random() < 0.4 else {"red": 0.05, "green": 0.12}
     constraints = [LimitOverlaps(0.1)] if case["two"] else []
     counter = _Counter()
     if case["model"] == "alpha":
